@@ -363,6 +363,9 @@ func compareFrames(t ev.TB, preface bool, wire []byte, chunks []int, what string
 }
 
 func normRec(r frec) frec {
+	if r.Truncated {
+		r.Fields = nil // a header list beyond the limit: both sides stop handing fields on, where exactly is not compared
+	}
 	if len(r.Fields) == 0 {
 		r.Fields = nil
 	}
@@ -386,6 +389,8 @@ func diffField(a, b frec) string {
 		return "payload"
 	case !reflect.DeepEqual(a.Prio, b.Prio):
 		return "priority"
+	case a.Truncated != b.Truncated:
+		return "truncated-flag"
 	case len(a.Fields) != len(b.Fields):
 		return "header-field-count"
 	case !reflect.DeepEqual(normRec(a).Fields, normRec(b).Fields):
@@ -454,6 +459,18 @@ func genHeaderList(rt *rapid.T) []hf {
 	case 2: // response
 		l = []hf{{N: ":status", V: rapid.SampledFrom([]string{"200", "204", "404", "503", "100"}).Draw(rt, "status")}}
 	default: // trailers
+	}
+	// 1 list in 30: beyond the 1 MiB header-list limit MOSN and the reference are both set to - both stop handing
+	// fields on (Truncated) but both still have to follow the block to its end: the small fields behind the crossing
+	// point enter the dynamic table, and the blocks that FOLLOW on the connection refer to them
+	if rapid.IntRange(0, 29).Draw(rt, "beyondListLimit") == 0 {
+		for i, k := 0, rapid.IntRange(18, 22).Draw(rt, "hugeFields"); i < k; i++ {
+			l = append(l, hf{N: "x-huge", V: string(codec.Fill(60000, uint64(i), true))})
+		}
+		for i := 0; i < 3; i++ {
+			l = append(l, hf{N: regularNames[2+i], V: "after-the-limit-" + genToken(rt, "afterLimit")})
+		}
+		ev.Class(partFrames, "header-list-beyond-the-1MiB-limit")
 	}
 	n := rapid.SampledFrom([]int{0, 0, 1, 2, 3, 5, 8, 20, 60}).Draw(rt, "nRegular")
 	for i := 0; i < n; i++ {
